@@ -1,10 +1,8 @@
 (* Extract_adapters.v -- extraction of the adapter / composite-preconditioner models
-   (C17, C13, C18) to OCaml.  Same directives as Extract_kernels.v (trusted base). *)
-From Coq Require Import Extraction ExtrOcamlBasic ExtrOcamlNatInt ExtrOcamlZBigInt.
+   (C17, C13, C18) to OCaml.  Directives: ExtractCommon.v (trusted base). *)
+From Amgcl Require Import ExtractCommon.
 From Coq Require Import QArith Qcanon.
 From Amgcl Require Import Scalar QcInst Vec Crs Kernels KernelsProofs MatOps Relax Adapters.
-Extraction Blacklist List String Int Nat.
-Set Extraction Optimize.
 Separate Extraction
   QcInst.QcS Scalar.is_zero Scalar.smax Scalar.smin
   Vec Crs Kernels KernelsProofs.Ax MatOps Relax Adapters.
